@@ -341,7 +341,7 @@ pub fn run(ctx: &Ctx) -> Report {
   let items: Vec<(usize, usize)> = wallets.iter().enumerate().flat_map(|(wi, w)| (0..w.len()).map(move |i| (wi, i))).collect();
   let (results, capped) = util::par_map(
     items.len(),
-    Some(util::Budget::new(if thorough { 3000 } else { 50 })),
+    Some(util::Budget::new(if thorough { 1500 } else { 50 })),
     |_| (),
     |_, ii| {
       let (wi, oi) = items[ii];
